@@ -1,31 +1,27 @@
 #!/usr/bin/env bash
-# Mutation self-test in a scratch copy (never touches /repo): for each selftest/mutants/<ID>-*.diff
-# matching the glob, copy /repo and the harness to a scratch dir, apply the diff, build the family
-# binary against the copy and run <ID> quick; expect exit 1. Usage: tools/mutants_scratch.sh '<glob>' [tier]
+# Mutation self-test in a scratch copy (never touches /repo): for each selftest/mutants/<ID>-*.diff matching
+# the glob: apply it to the family's scratch copy of /repo, build the family binary against the copy, run
+# <ID> quick (or the given tier), expect exit 1, revert. Usage: tools/mutants_scratch.sh '<glob>' [tier]
 set -u
-cd "$(dirname "$0")/.."
-V="$PWD"
+source "$(dirname "$0")/scratch_lib.sh"
+cd "$V"
 pat="${1:-*}"; tier="${2:-quick}"
-S="${SCRATCH:-/tmp/vscratch}"
-mkdir -p "$S/root"
-cp "$V/known_findings.json" "$S/root/" 2>/dev/null
-fam_of() { grep -E "^\s+[C0-9|]+\) echo fam_" "$V/check" | while read -r line; do ids="${line%%)*}"; pkg="${line##*echo }"; pkg="${pkg%% *}"; for i in ${ids//|/ }; do [ "$i" = "$1" ] && echo "$pkg"; done; done; }
 for f in selftest/mutants/$pat.diff; do
   name="$(basename "$f" .diff)"; id="${name%%-*}"; pkg="$(fam_of "$id")"
   [ -n "$pkg" ] || { echo "$name: no family for $id"; continue; }
-  rm -rf "$S/repo" "$S/harness"
-  rsync -a --exclude target --exclude .git /repo/ "$S/repo/"
-  rsync -a --exclude 'target*' "$V/harness/" "$S/harness/"
-  sed -i "s#/repo/#$S/repo/#" "$S/harness/Cargo.toml"
-  if ! (cd "$S/repo" && patch -p1 -s < "$V/$f"); then echo "$name: PATCH DOES NOT APPLY"; continue; fi
+  scratch_prepare "$pkg"
+  if ! (cd "$S/repo" && patch -p1 -s < "$V/$f"); then echo "$name: PATCH DOES NOT APPLY"; (cd "$S/repo" && patch -p1 -R -s -f < "$V/$f" >/dev/null 2>&1); continue; fi
   tests="-"
   if [ "${REPO_TESTS:-0}" = "1" ]; then
-    if (cd "$S/repo" && CARGO_TARGET_DIR="${TMPTARGET:-/tmp/mut-target}-repo" cargo test --workspace --offline >"$S/tests.log" 2>&1); then tests="repo-tests-pass"; else tests="REPO-TESTS-FAIL"; fi
+    if (cd "$S/repo" && CARGO_TARGET_DIR="/tmp/vscratch-target-repo-$pkg" cargo test --workspace --offline >"$S/tests.log" 2>&1); then tests="repo-tests-pass"; else tests="REPO-TESTS-FAIL"; fi
   fi
-  if ! (cd "$S/harness" && CARGO_TARGET_DIR="${TMPTARGET:-/tmp/mut-target}-$pkg" cargo build --release --offline -p "$pkg" >"$S/build.log" 2>&1); then echo "$name: BUILD FAILED"; grep -E "^error" -A 6 "$S/build.log" | head -20; continue; fi
-  out="$(VERIF_ROOT="$S/root" VERIF_SEED="${VERIF_SEED:-1}" "${TMPTARGET:-/tmp/mut-target}-$pkg/release/$pkg" "$id" "$tier" 2>&1)"; rc=$?
-  sig="$(echo "$out" | grep -m1 'signature:' | sed 's/.*signature: //')"
-  echo "$name: exit=$rc $tests sig=$sig"
-  [ "$rc" = "1" ] || echo "$out" | tail -3 | sed 's/^/    /'
+  if scratch_build "$pkg"; then
+    out="$(scratch_run "$pkg" "$id" "$tier")"; rc=$?
+    sig="$(echo "$out" | grep -m1 'signature:' | sed 's/.*signature: //')"
+    echo "$name: exit=$rc $tests sig=$sig"
+    [ "$rc" = "1" ] || echo "$out" | grep -v KNOWN-FINDING | tail -3 | sed 's/^/    /'
+  else
+    echo "$name: BUILD FAILED"; grep -E "^error" -A 6 "$S/build.log" | head -20
+  fi
+  (cd "$S/repo" && patch -p1 -R -s < "$V/$f")
 done
-rm -rf "$S"
